@@ -7,6 +7,7 @@ framer, (c) datagram channels for every corpus class, fault-free and faulty, wit
 
 import time
 
+from simverif.canon import canon
 from simverif import core, corpus, oracles, wire, wirefault, workload
 from simverif import framer as framer_mod
 
@@ -86,6 +87,9 @@ def _generate(rng, index, tier, extra):  # pylint: disable=unused-argument
         if rng.random() < 0.5:
             trailing = junk if rng.random() < 0.6 else rng.choice(seeds or bad).hex()
         doc = {'kind': 'dgram', 'cls': path, 'hex': raw.hex(), 'faults': faults, 'trailing': trailing, 'junk': junk}
+        if rng.random() < 0.15 and seeds:
+            # the caller's receive buffer (one bytearray object) held another unit before: recv_into() style reuse
+            doc['previous'] = rng.choice(seeds).hex()
         if rng.random() < 0.06:
             # a receive buffer that already holds a lot of what follows (tens of KiB after the first unit)
             doc['pad'] = [rng.choice((5000, 17000, 18432, 18433, 20000, 40000, 66000, 140000)), rng.getrandbits(32)]
@@ -125,6 +129,8 @@ def _exec_dgram(doc, res):
         raw += _random.Random(doc['pad'][1]).randbytes(doc['pad'][0])
         res.stats['probe.buffer_over_18k_after_first_unit'] += doc['pad'][0] > 18432
     framer_name = FRAMING_CLASSES.get(doc['cls'])
+    if doc.get('previous'):
+        _reused_buffer(cls, bytes.fromhex(doc['previous']), raw, res)
     n = oracles.probe_c03(cls, raw, res, framer_name, framing=framer_name is not None, junk=bytes.fromhex(doc['junk']))
     res.sim_events += 1
     outcome = 'accepted' if n is not None else 'rejected'
@@ -137,6 +143,39 @@ def _exec_dgram(doc, res):
         res.stats['probe.accepted_with_trailing_bytes'] += 1
     if fired and n is not None:
         res.stats['probe.corrupted_input_accepted'] += 1
+
+
+def _reused_buffer(cls, previous, raw, res):
+    """The result depends only on the bytes in the buffer: a bytearray that held (and was parsed with) another unit
+    before and was refilled in place gives what a fresh immutable copy of its content gives."""
+    def outcome(func, arg):
+        try:
+            value = func(arg)
+        except (core.RunTimeout, KeyboardInterrupt, SystemExit, core.HarnessError):
+            raise
+        except BaseException as exc:  # pylint: disable=broad-except
+            return ('raised', wire.classify(exc), getattr(exc, 'bytes_needed', None) if wire.classify(exc) == 'ned' else None)
+        if isinstance(value, tuple):
+            return ('ok', canon(value[0]), value[1])
+        return ('ok', canon(value), None)
+
+    for entry in ('parse_immutable', 'parse_mutable'):
+        buffer = bytearray(previous)
+        outcome(getattr(cls, entry), buffer)
+        buffer[:] = raw                                   # refilled in place: the same object, other content
+        got = outcome(getattr(cls, entry), buffer)
+        rest = bytes(buffer)
+        fresh = bytearray(raw)
+        want = outcome(getattr(cls, entry), bytes(raw) if entry == 'parse_immutable' else fresh)
+        res.stats['probe.receive_buffer_object_reused'] += 1
+        if got != want or (entry == 'parse_mutable' and rest != bytes(fresh)):
+            res.violation((PROPERTY, 'depends-on-earlier-buffer-content', cls.__name__, entry),
+                          'the result depends only on the bytes in the buffer',
+                          '%s on a bytearray that held %d other bytes before and was refilled in place with %d bytes: '
+                          '%s / %d bytes left; a fresh buffer with the same content: %s / %d bytes left' % (
+                              entry, len(previous), len(raw), got[:2] if got[0] != 'ok' else ('ok', got[2]), len(rest),
+                              want[:2] if want[0] != 'ok' else ('ok', want[2]), len(fresh)))
+            return
 
 
 def _exec_stream(doc, res):
@@ -203,6 +242,8 @@ def shrink(doc, sig, budget):
             doc['trailing'] = ''
         if doc.get('pad') and test_with(pad=None):
             doc['pad'] = None
+        if doc.get('previous') and test_with(previous=None):
+            doc['previous'] = None
         if not doc['faults']:
             keep = 0
             doc['hex'] = core.shrink_bytes(bytes.fromhex(doc['hex']), lambda c: test_with(hex=c.hex()), budget, keep).hex()
